@@ -1,6 +1,7 @@
 package main
 
 import (
+	"unsafe"
 	"fmt"
 	"math/rand"
 	"sort"
@@ -326,10 +327,45 @@ func (c *c07s2s) hooks() (int, int) {
 	return in.VerifSlotCount(), in.VerifMaxChain()
 }
 
+// a load that fails because one key has 2^32 bytes must leave the earlier content as it was
+// (variant 0: StrMap[int] via LoadFromSlice, 1: Str2Str)
+func c07HugeKey(variant int) bool {
+	big := make([]byte, 1<<32) // untouched zero pages
+	huge := unsafe.String(&big[0], len(big))
+	kk := []string{"a", "bb", "", "dddd"}
+	ok := true
+	if variant == 0 {
+		m := strmap.New[int]()
+		ok = ok && m.LoadFromSlice(kk, []int{1, 2, 3, 4}) == nil
+		err := m.LoadFromSlice([]string{"x", huge, "y"}, []int{7, 8, 9})
+		ok = ok && err != nil && m.Len() == 4
+		for i, k := range kk {
+			v, has := m.Get(k)
+			ok = ok && has && v == i+1
+		}
+		_, has := m.Get("x")
+		return ok && !has
+	}
+	m := strmap.NewStr2Str()
+	vv := []string{"1", "22", "", "4444"}
+	ok = ok && m.LoadFromSlice(kk, vv) == nil
+	err := m.LoadFromSlice([]string{"x", huge, "y"}, []string{"7", "8", "9"})
+	ok = ok && err != nil && m.Len() == 4
+	for i, k := range kk {
+		v, has := m.Get(k)
+		ok = ok && has && v == vv[i]
+	}
+	_, has := m.Get("x")
+	return ok && !has
+}
+
 func c07run(in V) V {
 	a := AsList(in)
 	if AsInt(a[0]) == 8 {
 		return c07big(AsInt(a[1]), AsInt(a[2]), AsI64(a[3]), AsInt(a[4]), AsInt(a[5]))
+	}
+	if AsInt(a[0]) == 10 {
+		return Ls(Bo(c07HugeKey(AsInt(a[1]))))
 	}
 	if AsInt(a[0]) == 9 {
 		lo, cnt := AsInt(a[1]), AsInt(a[2])
@@ -945,6 +981,8 @@ func init() {
 					g.Add("big/edge", Ls(I(8), I(r.Intn(3)), I(c+d), I64(r.Int63()), I(r.Intn(7)), I(c-d)))
 				}
 			}
+			g.Add("huge-key", Ls(I(10), I(0)))
+			g.Add("huge-key", Ls(I(10), I(1)))
 			// calcHashtableSlots against the model's [slots]
 			top := g.Scale(100000, 1000000)
 			for lo := 0; lo <= top; lo += 1000 {
